@@ -44,7 +44,7 @@ type c15batch struct {
 
 func runC15(c *ev.Ctx) {
 	c.Rule = "a real dagprocessor.Processor with a real DataSemaphore; 2-8 producer goroutines enqueue ordered and unordered batches (1-5 events, every pushed copy a distinct pointer, duplicate ids across batches, events far ahead in Lamport time); CheckParentless answers from other goroutines after random delays and out of order and fails for some events, Process fails for some; buffer limits from 3 events upward; semaphore capacities from 'everything fits' down to 'a few batches' with a 20 ms acquire timeout (rejected batches); Stop() either after all accepted batches finished or while batches are in flight. " +
-		"Oracle (offline over the callback log): every copy of a batch whose done() ran is Released exactly once by the time Stop() returned; copies of batches rejected with ErrBusy never appear in any callback; Processing() sampled in every callback never exceeds the capacity and is zero at the end when every accepted batch finished; the over-release warning never fires; in ordered batches the first Process/Released/Exists naming each event come in batch order; Process(e) only if e.Lamport <= H + limit.Num + 1 for the highest H the HighestLamport callback had returned by then. " +
+		"Every third run the application connects events out of band (Exists turns true for events the processor never processed) while copies of them may sit in the buffer. Oracle (offline over the callback log): every copy of a batch whose done() ran is Released exactly once by the time Stop() returned; copies of batches rejected with ErrBusy never appear in any callback; Processing() sampled in every callback never exceeds the capacity and is zero at the end when every accepted batch finished; the over-release warning never fires; in ordered batches the first Process/Released/Exists naming each event come in batch order; Process(e) only if e.Lamport <= H + limit.Num + 1 for the highest H the HighestLamport callback had returned by then. " +
 		"non-trivial = distinct runs with an ordered batch whose checks completed out of order, a far-future drop and a rejected batch or an in-flight Stop"
 	c.Assumptions = []string{"the HighestLamport callback is monotone (the harness keeps it so)", "a watchdog of 60 s per run decides 'hangs'"}
 	nR := c.Pick(2000, 40000)
@@ -231,6 +231,42 @@ func c15Run(c *ev.Ctx, r *rand.Rand, caseN int) {
 		oversize = big
 	}
 	producers := 2 + r.Intn(7)
+	// every third run: the application also connects events on its own (they reached it another way) while copies of
+	// them may be waiting in the ordering buffer - Exists() turns true for an event the processor never processed
+	oobStop := make(chan struct{})
+	if caseN%3 == 0 {
+		rr := rand.New(rand.NewSource(r.Int63()))
+		go func() {
+			for {
+				select {
+				case <-oobStop:
+					return
+				default:
+				}
+				time.Sleep(120 * time.Microsecond)
+				e := all[rr.Intn(len(all))]
+				mu.Lock()
+				if connected[e.ID()] == nil {
+					ok := true
+					for _, p := range e.Parents() {
+						if rr.Intn(2) == 0 {
+							break // the application's own view need not be the processor's: it may hold the event before its parents went through here
+						}
+						if connected[p] == nil {
+							ok = false
+						}
+					}
+					if ok {
+						connected[e.ID()] = e
+						logs = append(logs, c15log{"oob-connect", nil, e.ID(), 0})
+						c.Count("events_connected_out_of_band", 1)
+					}
+				}
+				mu.Unlock()
+			}
+		}()
+	}
+	defer close(oobStop)
 	var stopCalled int32
 	finished := make(chan string, 1)
 	go func() {
@@ -348,7 +384,7 @@ func c15Run(c *ev.Ctx, r *rand.Rand, caseN int) {
 	}
 	farDrop := false
 	for li, l := range logs {
-		if l.kind == "checked" || l.kind == "drop" {
+		if l.kind == "checked" || l.kind == "drop" || l.kind == "oob-connect" {
 			continue // harness-side markers, not callbacks of the processor
 		}
 		cp := l.c
